@@ -4,7 +4,7 @@ from __future__ import annotations
 import itertools
 
 from mc import e1, refmodel as rm
-from mc.common import HarnessError
+from mc.common import HarnessError, make_rule_doc
 
 ID = "C06"
 LEVEL = "exploration"
@@ -16,12 +16,12 @@ RULE = ("rules: $deref with every present/absent combination of register_multipl
         "spelled with and without %, in operand position 1 (followed by a plain operand item) and 2; listings: one "
         "instruction whose operand in that position is EVERY operand of the menu {k(a,b,c),(a,b,c),k(a),(a),k(,b,c) over "
         "base/index in {rax,rbx,rcx,rsp}, scale 1/2/4/8, disp in {0x0,0x8,0x10,0x18,-0x8,0x80,0x7fffffff,-0x80000000,0x12345678}} plus registers and "
-        "immediates (AT&T text through the real operand normaliser). Oracle: component-wise equality (same present "
+        "immediates (AT&T text through the real operand normaliser). Round trip: every position-1 rule also against ONE real listing - `lea OP,%rdx` for every valid memory operand of the menu, assembled by `as` and printed by `objdump -d -M att` - where the matched addresses must be exactly those the reference selects. Oracle: component-wise equality (same present "
         "components, each equal modulo optional % / 0x). Non-trivial = reference finds the rule, or the operand is a "
         "bracket form with the same main register.")
 ASSUMPTIONS = ["a constant written WITH 0x in the rule is not required to match an operand printed without it (scale)"]
 LEVEL_TEXT = ("All $deref rules of the stated grammar x all operands of the menu in both operand positions; verdict compared "
-              "with the component-wise reference. Exhaustive within bounds; thorough adds real as+objdump round trips.")
+              "with the component-wise reference. Exhaustive within bounds; includes a real as+objdump round trip of the whole operand menu.")
 LEVEL_NOTE = "Trusted: mc/refmodel.py bracket parser/deref semantics and normalise_operand (the C09 table)."
 
 REGS_L = ["rax", "rbx", "rcx", "rsp"]
@@ -124,7 +124,56 @@ def near_miss(rc, norm):
     return any(o.startswith("[%" + reg) for _a, _m, ops in norm for o in ops)
 
 
+_RT = {}
+
+
+def roundtrip_listing(h):
+    """every valid memory operand of the menu as `lea OP,%rdx`, assembled by the real `as` and printed by the real objdump"""
+    import subprocess
+    from mc import objspace as ob, bind
+    if h.root in _RT:
+        return _RT[h.root]
+    ops = [o for o in operand_menu() if "(" in o and "%fs" not in o and "%gs" not in o and "%cs" not in o and not o.startswith("*")
+           and ",%rsp," not in o]
+    src = ".text\n" + "".join(f" lea {o},%rdx\n" for o in ops)
+    sp = h.write("c06rt.s", src)
+    obj = h.path("c06rt.o")
+    r = subprocess.run(["as", "--64", sp, "-o", obj], capture_output=True, text=True)
+    if r.returncode != 0:
+        raise HarnessError("as failed on the C06 round-trip source: " + r.stderr[:300])
+    text = ob.objdump_text(obj)
+    insts = bind.parse_listing_text(text)
+    if insts is None or len(insts) != len(ops):
+        raise HarnessError("round-trip listing could not be parsed by the reference classifier")
+    _RT.clear()
+    _RT[h.root] = (h.write("c06rt.txt", text), insts)
+    return _RT[h.root]
+
+
+def run_roundtrip(shard, tier, h, res, known):
+    """each $deref rule against the real objdump listing: the matched addresses must be exactly those the reference selects"""
+    path, insts = roundtrip_listing(h)
+    rules = [rc for rc in all_rules(tier) if rc.family == "P1"]
+    ref = rm.Ref()
+    for ri in range(shard["lo"], len(rules), shard["n"]):
+        d = _deref_of(rules[ri].pattern)
+        pat = [{"lea": [{"$deref": d}, "rdx"]}]
+        doc = make_rule_doc(pat)
+        res.evaluations += 1
+        try:
+            got = h.match(h.mop(doc), path, only_addr=True)
+        except Exception as e:  # noqa
+            res.fail({"clause": "raises", "family": "roundtrip", "rule": doc, "expected": "result", "observed": repr(e), "size": 1}, known)
+            continue
+        want = [insts[i][0] for i in range(len(insts)) if ref.ends(pat, insts, i)]
+        if want:
+            res.nontrivial += 1
+        if got != want:
+            res.fail({"clause": "roundtrip", "family": "roundtrip", "rule": doc, "expected": want, "observed": got, "size": len(str(d))}, known)
+
+
 def run_shard(shard, tier, h, res, known):
+    run_roundtrip(shard, tier, h, res, known)
     e1.run_rules(h, res, known, all_rules(tier), e1.get_lsets(h, tier, build_lsets), shard, prop=ID, near_miss=near_miss)
 
 
@@ -149,4 +198,10 @@ def controls(h):
 
 
 def replay(case, h):
+    if case.get("family") == "roundtrip":
+        path, insts = roundtrip_listing(h)
+        pat = case["rule"]["pattern"]
+        got = h.match(h.mop(case["rule"]), path, only_addr=True)
+        want = [insts[i][0] for i in range(len(insts)) if rm.Ref().ends(pat, insts, i)]
+        return got != want, f"matched {got}, reference selects {want}"
     return e1.replay_case(case, h)
